@@ -160,6 +160,36 @@ func c09ReceiveRetry(c *Ctx, rr *ssa.Function) {
 				fmt.Sprintf("returns err=%s", p.Results[2]), "the invalid branch continues the loop", "an invalid message makes receiveRetry return")
 		}
 	}
+	// the only reason to discard a message that was read successfully is its hop limit: a path that
+	// goes round the loop after ReadFrom succeeded without having found HopLimit != 255 drops a valid
+	// message (or an invalid one uncounted) on some other ground — rate, size, sender
+	nRead := 0
+	for _, p := range ps {
+		if !p.Cut {
+			continue
+		}
+		readOK, invalid := false, false
+		for _, a := range p.Atoms {
+			if valid, _, ok := hopLimitAtom(a); ok && !valid {
+				invalid = true
+			}
+			x, y, op, ok := effCmp(a)
+			if ok && exprIsNil(y) && op == token.EQL {
+				if b, i := stripExtract(x); i == 3 && exprCallIs(b, PkgSystem, "Conn", "ReadFrom") {
+					readOK = true
+				}
+			}
+		}
+		if !readOK {
+			continue
+		}
+		nRead++
+		c.R.Check(invalid, "R-C09-2", fmt.Sprintf("%s:discard-only-invalid@%s", fn, pathShape(p)), fn, c.pos(rr.Pos()),
+			"the receive loop continues after a successful ReadFrom under "+atomsString(p),
+			"a message that was read is discarded only on a path that found HopLimit != 255",
+			"messages are dropped for a reason other than failed validation: valid messages that follow a burst are not served, invalid ones are not counted")
+	}
+	c.R.Check(nRead >= 1, "R-C09-2", fn+":discard-paths", fn, c.pos(rr.Pos()), fmt.Sprintf("%d loop-back path(s) after a successful read", nRead), ">= 1", "anchor-missing")
 	c.R.Floor("R-C09-2", 1)
 	if budget == nil {
 		c.R.Fail("R-C09-3", fn+":budget-counter", fn, c.pos(rr.Pos()), "no loop counter guards `return errRetriesExhausted`",
